@@ -1666,9 +1666,13 @@ fintStmt(DataObj retDataObj)
 	case FOAM_NOp:
 		break;
 	default:
-	        fintWhere(int0);
-		bug("fintStmt: %s (<%s> in [%s]) unimplemented...\n",
-		    foamInfo(tag).str, prog->name, prog->unit->name);
+		/* Any other expression used as a statement (a bare
+		 * parameter, local, global, literal or element reference
+		 * survives at -Q0): evaluate it and ignore the value.
+		 * fintEval reports tags it cannot evaluate. */
+		ip = stmtPos;
+		(void)fintEval(&expr);
+		break;
 	}
 
 	goto readEvalLoop;
